@@ -283,6 +283,43 @@ def correspond(ctx, scale):
                         failures.append({'key': f'{f["name"]}:{op}:repeat-exception', 'what': repr(ex), 'case': dict(name=f['name'], ops=trace)})
             if len(samples) < 4:
                 samples.append(dict(module=f['name'], ops=trace))
+    # all-pairs sweep over per-call options and ambient contexts (vlib/callzoo.py): whatever the options, an evaluation-mode call and a
+    # frozen training-mode call leave every persistent tensor bit-identical - after a used history (two training steps, gradients left behind)
+    from vlib import callzoo
+    from vector_quantize_pytorch import VectorQuantize, ResidualVQ
+    from torch.optim import SGD
+    cz_cfgs = [('vq-expiry', lambda: VectorQuantize(dim=4, codebook_size=6, decay=0.5, threshold_ema_dead_code=2), 4, 1, None),
+               ('vq-heads-cosine', lambda: VectorQuantize(dim=4, codebook_size=6, heads=2, codebook_dim=2, use_cosine_sim=True, threshold_ema_dead_code=2), 4, 2, None),
+               ('vq-inplace-sgd', lambda: VectorQuantize(dim=3, codebook_size=6, learnable_codebook=True, ema_update=False, in_place_codebook_optimizer=partial(SGD, lr=0.5)), 3, 1, None),
+               ('vq-stochastic-kmeans', lambda: VectorQuantize(dim=3, codebook_size=6, stochastic_sample_codes=True, kmeans_init=True, kmeans_iters=2, threshold_ema_dead_code=1), 3, 1, None),
+               ('rvq-shared-expiry', lambda: ResidualVQ(dim=3, num_quantizers=3, codebook_size=6, shared_codebook=True, threshold_ema_dead_code=2, decay=0.5), 3, 1, 3)]
+    for cname, cmk, cdim, cheads, cnq in cz_cfgs:
+        mod = cmk()
+        mod.train()
+        for _ in range(2):
+            xg = torch.randn(2, 5, cdim, requires_grad=True)
+            rt = mod(xg)
+            tot = rt[0].sum() + rt[2].sum()
+            if tot.requires_grad:
+                tot.backward()                      # gradients stay on the parameters: the caller has not called zero_grad yet
+        for v in callzoo.variants():
+            for train in (False, True):
+                if train and not v['freeze']:
+                    continue
+                mod.train(train)
+                x, kw_c, cm, valid = callzoo.build_call(v, torch, cdim, heads=cheads, K=6, nq=cnq)
+                before = blob(mod)
+                try:
+                    with cm():
+                        mod(x, **kw_c)
+                except Exception:
+                    continue
+                evaluations += 1
+                dist['call_option_pure_calls'] = dist.get('call_option_pure_calls', 0) + 1
+                ok, why = same(before, blob(mod))
+                if not ok:
+                    failures.append({'key': f'{cname}:call-options:state-changed:{why.split(":")[1] if ":" in why else why}',
+                                     'what': f'{cname}: persistent state changed by a pure call ({"frozen training" if train else "evaluation"} mode) {callzoo.label(v)}: {why}', 'case': dict(name=cname, variant=v, train=train)})
     bad, broken = core.run_cases(ctx, 'c08', HEADER, cases, per_file=40)
     for name, out in broken:
         failures.append({'key': f'coq-eval:{name}', 'what': 'case file did not evaluate: ' + out, 'case': {'file': name}})
